@@ -57,11 +57,11 @@ ASSUMPTIONS = [
     'Monte-Carlo and panel specifications are not part of this workload (their parameters go through the same '
     'IdManager numbering; draws are covered by C10/C11)',
 ]
-MIN_DISTINCT = {'quick': 150, 'thorough': 2500}
+MIN_DISTINCT = {'quick': 150, 'thorough': 1500}
 CASE_TIMEOUT = 600  # generous: a case needs 1-3 s of CPU; the watchdog only guards against hangs on a loaded machine
 SHARD_TIMEOUT = {'quick': 1800, 'thorough': 14400}
 
-N_MODELS = {'quick': 360, 'thorough': 6000}
+N_MODELS = {'quick': 360, 'thorough': 3000}
 EST_EVERY = 3  # one case out of EST_EVERY estimates O, S and R
 
 DUP_KINDS = ['free-fixed', 'free-var', 'fixed-var', 'free-unusedcol', 'free-draws', 'fixed-draws', 'free-rv',
